@@ -18,8 +18,9 @@ git checkout -q -- src repe-derive Cargo.toml 2>/dev/null
 cargo test --offline --features websocket,value-stream,verif-hooks --test demo_${ID}_$N -- --test-threads=1 > out/demo${N}_without_patch.log 2>&1; d_without=$?
 rm -f tests/demo_${ID}_$N.rs
 git checkout -q -- .
+base=$(git rev-parse --short HEAD)
 cat > out/confirm$N.json <<EOF
-{"applies": true, "build_default_ok": $b1, "build_features_ok": $b2, "baseline_passed_failed": "$t",
+{"applies": true, "base": "$base", "build_default_ok": $b1, "build_features_ok": $b2, "baseline_passed_failed": "$t",
  "demo_exit_with_patch": $d_with, "demo_exit_without_patch": $d_without,
  "commands": ["git apply patch.diff", "cargo build --offline", "cargo build --offline --features websocket,value-stream,verif-hooks",
    "cargo test --workspace --no-fail-fast --offline", "cargo test --offline --features websocket,value-stream,verif-hooks --test demo -- --test-threads=1 (with patch, then after reverting it)"]}
